@@ -373,6 +373,10 @@ class Engine(
                     return self.append_binary(binary, select, fixed)
             case Identity():
                 return select
+        if not operation.is_supported_by(self):
+            # A user-defined operation that says so itself; same error as
+            # UnaryOperation._finish_apply raises in other engines.
+            raise EngineError(f"Operation {operation} is not supported by engine {self}.")
         raise NotImplementedError(f"Unsupported operation type {operation} for engine {self}.")
 
     def append_binary(self, operation: BinaryOperation, lhs: Relation, rhs: Relation) -> Select:
